@@ -1,12 +1,91 @@
-"""C07 - decided on the two concurrent protocols (see concrun.py)."""
+"""C07 - decided on the two concurrent protocols (see concrun.py), plus the degenerate buffer sizes: a
+configuration with buffer_size < 1 (or below the worker count) is either refused or honours the bound; it
+never becomes an unbounded queue."""
+import time
+import warnings
+
+import common
 import concrun
 
 WHICH = ('C07',)
+N_ITEMS = 80
+
+
+def degenerate_case(kind, w, b):
+    """real threads, a consumer that reads one example and then pauses: the bound is an upper bound at every
+    moment, so the pause only decides how much of an unbounded read-ahead becomes visible"""
+    import lazy_dataset
+    from lazy_dataset import parallel_utils as PU
+    common.gc_point()
+    pulled = []
+
+    def load(x):
+        pulled.append(x)
+        return x
+
+    def gen():
+        for i in range(N_ITEMS):
+            pulled.append(i)
+            yield i
+    it = None
+    try:
+        with warnings.catch_warnings():
+            warnings.simplefilter('ignore')
+            base = lazy_dataset.new(list(range(N_ITEMS))).map(load)
+            if kind == 'stp_direct':
+                it = PU.single_thread_prefetch(gen(), b)
+            elif kind == 'lpm_direct':
+                it = PU.lazy_parallel_map(lambda x: x, gen(), buffer_size=b, max_workers=w, backend='t')
+            elif kind == 'prefetch':
+                it = iter(base.prefetch(w, b))
+            elif kind == 'prefetch_copy':
+                it = iter(base.prefetch(w, b).copy(freeze=True))
+            elif kind == 'parmap':
+                it = iter(base.map(lambda x: x, num_workers=w, buffer_size=b))
+            else:
+                it = iter(base.batch(1).batch_map(lambda x: x, num_workers=w, buffer_size=b))
+            next(it)
+    except (AssertionError, ValueError) as e:
+        return None, 'refused: ' + type(e).__name__
+    except BaseException as e:  # noqa
+        return ('degenerate_buffer_unexpected_error', {'kind': kind, 'workers': w, 'buffer': b, 'error': repr(e)[:200]}), 'error'
+    time.sleep(0.12)
+    ahead = len(pulled) - 1
+    try:
+        it.close()
+    except BaseException:  # noqa
+        pass
+    if ahead > max(b, 0) + 2:
+        return ('accepted_buffer_size_reads_ahead_without_bound',
+                {'kind': kind, 'workers': w, 'buffer': b, 'pulled_beyond_delivered': ahead, 'allowed': max(b, 0) + 2, 'dataset_length': N_ITEMS}), 'accepted'
+    return None, 'accepted'
 
 
 def run(rep):
-    return concrun.run(rep, 'C07', WHICH)
+    concrun.run(rep, 'C07', WHICH)
+    outcomes = {}
+    fails = []
+    for kind in ('stp_direct', 'lpm_direct', 'prefetch', 'prefetch_copy', 'parmap', 'batchmap'):
+        for w in ((1,) if kind == 'stp_direct' else (1, 2, 3)):
+            for b in sorted(set([-1, 0] + list(range(1, w)) + [w, w + 1])):
+                f, what = degenerate_case(kind, w, b)
+                outcomes[f'{kind} w={w} b={b}'] = what
+                if f:
+                    fails.append(f)
+    seen = set()
+    for cl, det in fails:
+        if (cl, det['kind']) not in seen and len(rep.violations) < 4:
+            seen.add((cl, det['kind']))
+            rep.violation({'property': 'C07', 'kind': 'oracle-failure', 'clause': cl, 'detail': det})
+    rep.coverage['degenerate_buffer_sizes'] = {'configurations': len(outcomes), 'refused': sum(1 for v in outcomes.values() if v.startswith('refused')),
+                                               'accepted_within_bound': sum(1 for v in outcomes.values() if v == 'accepted'), 'failures': len(fails)}
+    return rep
 
 
 def replay(j):
+    if str(j.get('clause', '')).startswith(('accepted_buffer_size', 'degenerate_buffer')):
+        d = j['detail']
+        f, what = degenerate_case(d['kind'], d['workers'], d['buffer'])
+        print(what, f)
+        return 1 if f else 0
     return concrun.replay('C07', WHICH, j)
